@@ -127,13 +127,18 @@ class Stuck(Exception):
 def lit_text(x):
     """decimal text of a non-negative finite double that mimium's lexer reads back to the same value"""
     s = repr(float(x))
+    if ("e" in s or "E" in s) and float(x) == int(float(x)) and abs(float(x)) < 1e300:
+        s = "%d.0" % int(float(x))       # a large whole number: all its decimal digits
     if "e" in s or "E" in s or "n" in s:
         raise Stuck("literal needs an exponent: " + s)
     return s
 
 
 def num_node(x):
-    if x < 0 or (x == 0 and str(x).startswith("-")):
+    if x == 0 and str(x).startswith("-"):
+        # negative zero has no literal (`-0.0` is `0.0 - 0.0` = +0.0): written as a product
+        return Node("bin", "mul", Node("lit", "0.0"), Node("un", "neg", Node("lit", "1.0")))
+    if x < 0:
         return Node("un", "neg", Node("lit", lit_text(-x)))
     return Node("lit", lit_text(x))
 
@@ -300,7 +305,7 @@ def manual(sp):
 # ---------------------------------------------------------------------------------------------------------------
 # generator
 
-KINDS = [("ident", 3), ("qs", 3), ("tmpl", 8), ("letcode", 4), ("hof", 4), ("rec", 4), ("reclift", 3), ("nested", 3),
+KINDS = [("ident", 3), ("qs", 3), ("tmpl", 8), ("letcode", 4), ("hof", 4), ("rec", 4), ("reclift", 3), ("liftdiv", 3), ("nested", 3),
          ("genlam", 2)]
 
 
@@ -372,6 +377,16 @@ class SGen(coregen.Gen):
     def mnum(self, nvar):
         """macro-stage arithmetic on the counter: positive, finite, exactly computed by both sides"""
         k1, k2 = self.r.pick(["0.5", "0.25", "1.5", "0.1", "3.0", "0.3"]), self.r.pick(["1.0", "0.125", "2.0", "0.7"])
+        if self.p.get("extreme_lift", True) and self.r.chance(1, 4):
+            # values whose decimal text is delicate: whole numbers beyond the i64 range, negative zero, large + fraction
+            k = self.r.below(4)
+            if k == 0:
+                return Node("bin", "mul", Node("bin", "add", Node("var", nvar), Node("lit", "1.0")), Node("lit", "1180591620717411303424.0"))   # (n+1)·2^70
+            if k == 1:
+                return Node("bin", "mul", Node("bin", "mul", Node("var", nvar), Node("lit", "0.0")), Node("un", "neg", Node("lit", "1.0")))     # -0.0
+            if k == 2:
+                return Node("bin", "mul", Node("bin", "add", Node("var", nvar), Node("lit", "1.0")), Node("lit", "9223372036854775808.0"))     # (n+1)·2^63
+            return Node("bin", "add", Node("bin", "mul", Node("var", nvar), Node("lit", "4503599627370496.0")), Node("lit", "0.5"))            # n·2^52 + 0.5
         return Node("bin", "add", Node("bin", "mul", Node("var", nvar), Node("lit", k1)), Node("lit", k2))
 
     def staged(self, d, ctx):
@@ -421,6 +436,11 @@ class SGen(coregen.Gen):
             body = Node("if", Node("bin", "gt", Node("var", "n"), Node("lit", "0.0")), t, base)
             self.macros.append(MFn(m, ["n", x], body))
             return Node("mcall", m, [Node("lit", "%d.0" % r.below(4)), self.arg(d, ctx)])
+        if kind == "liftdiv":
+            # K / $(lift_f(E(n))): the sign of a zero and the magnitude of a huge value are both visible in the quotient
+            m = self.mname()
+            self.macros.append(MFn(m, ["n"], Node("quote", Node("bin", "div", self.lit(), Node("splice", Node("lift", self.mnum("n")))))))
+            return Node("mcall", m, [Node("lit", "%d.0" % r.below(4))])
         if kind == "nested":
             m, h, g = self.mname(), self.fresh("h"), self.fresh("h")
             inner = self.template([h], d - 1, ctx, flat=True)
